@@ -613,7 +613,9 @@ example (k : Bool) :
 /-- THE FIELD NAMED `ID` IS THE KEY, WHATEVER ITS COLUMN IS CALLED.  For every list of parsed fields (top-level and
     embedded, any tags): if exactly one field carries the Go name `ID`, no field is tagged `primaryKey`, and no OTHER
     field owns a column spelled `id` / `ID` (nor is some field named `id`), then the schema-level steps make that field the
-    prioritized primary field and the only primary field — its column name plays no role (`column:parcel_no`). -/
+    prioritized primary field and the only primary field — its column name plays no role (`column:parcel_no`).  `k` = the
+    regenerated fact `Gen.priorityNeedsColumn` (is the repair of F28 in the tree?): with the repair the field must HAVE a
+    column (`hcol`), under whatever name. -/
 theorem C03_id_field_is_key_any_column (k : Bool) (fs0 : List AField) (i : Nat) (f : AField)
     (hf : (nameCols fs0)[i]? = some f) (hname : f.name = "ID") (hcol : k = true → f.dbName ≠ "")
     (huniq : ∀ (j : Nat) (g : AField), (nameCols fs0)[j]? = some g → g.name = "ID" → j = i)
